@@ -3,6 +3,7 @@
 package zzlib
 
 import (
+	"time"
 	"encoding/json"
 	"fmt"
 	"os"
@@ -21,6 +22,7 @@ type runResult struct {
 	Obs       []string `json:"obs"`
 	Exhausted bool     `json:"exhausted"`
 	Unused    int      `json:"unused"`
+	ElapsedMs int64    `json:"elapsed_ms"`
 }
 
 func runOne(c runCase) (res runResult) {
@@ -29,6 +31,7 @@ func runOne(c runCase) (res runResult) {
 	if !ok {
 		return runResult{Outcome: "no-such-harness"}
 	}
+	zzT0 := time.Now()
 	defer func() {
 		if e := recover(); e != nil {
 			switch e := e.(type) {
@@ -41,6 +44,7 @@ func runOne(c runCase) (res runResult) {
 				res.Msg = fmt.Sprint(e) + "\n" + string(debug.Stack())
 			}
 		}
+		res.ElapsedMs = time.Since(zzT0).Milliseconds()
 		res.Obs = verifCur.obs
 		res.Exhausted = verifCur.exhausted
 		res.Unused = len(verifCur.draws) - verifCur.pos
